@@ -365,7 +365,8 @@ func cmdCheck(args []string) int {
 			ev.violations++
 			exit = 1
 		}
-		inconclusive = append(inconclusive, env.sqlMismatch...)
+		// the disagreements themselves come first (the list is cut when printed)
+		inconclusive = append(append([]string{}, env.sqlMismatch...), inconclusive...)
 		ev.sqlTraces = env.sqlTraces
 	} else {
 		inconclusive = append(inconclusive, "native validation skipped (--no-native)")
